@@ -186,6 +186,7 @@ func NewTableTemplate() *template.Template {
 		template.FuncMap{
 			"PrintVal":           printVal,
 			"FieldName":          FieldName,
+			"EnumValueName":      enumValueName,
 			"FieldType":          FieldType,
 			"FieldTypeWithEnums": FieldTypeWithEnums,
 			"OvsdbTag":           Tag,
@@ -221,7 +222,7 @@ var (
 {{ range  index . "Enums" }}
 {{- $e := . }}
 {{- range .Sets }}
-{{ $e.Alias }}{{ FieldName . }} {{ $e.Alias }} = {{ PrintVal . $e.Type }}
+{{ $e.Alias }}{{ EnumValueName . }} {{ $e.Alias }} = {{ PrintVal . $e.Type }}
 {{- end }}
 {{- end }}
 )
@@ -326,6 +327,16 @@ func FieldName(column string) string {
 	return camelCase(strings.Trim(column, "_"))
 }
 
+// enumValueName returns the suffix of the name of an enum constant: the
+// value itself for strings, a spelled-out form for numbers and booleans
+func enumValueName(v interface{}) string {
+	s, ok := v.(string)
+	if !ok {
+		s = strings.NewReplacer("-", "minus_", ".", "point").Replace(fmt.Sprint(v))
+	}
+	return FieldName(s)
+}
+
 // StructName returns the name of the table struct
 func StructName(tableName string) string {
 	return cases.Title(language.Und, cases.NoLower).String(strings.ReplaceAll(tableName, "_", ""))
@@ -388,7 +399,7 @@ func FieldEnum(tableName, columnName string, column *ovsdb.ColumnSchema) *Enum {
 		return nil
 	}
 	return &Enum{
-		Type:  column.TypeObj.Key.Type,
+		Type:  AtomicType(column.TypeObj.Key.Type),
 		Alias: enumName(tableName, columnName),
 		Sets:  column.TypeObj.Key.Enum,
 	}
@@ -488,9 +499,13 @@ func expandInitilaisms(s string) string {
 func printVal(v interface{}, t string) string {
 	switch t {
 	case "int":
+		// enum values of a schema are decoded from JSON: numbers are float64
+		if f, ok := v.(float64); ok {
+			return fmt.Sprintf(`%d`, int(f))
+		}
 		return fmt.Sprintf(`%d`, v)
 	case "float64":
-		return fmt.Sprintf(`%f`, v)
+		return fmt.Sprintf(`%v`, v)
 	case "bool":
 		return fmt.Sprintf(`%t`, v)
 	case "string":
